@@ -1,15 +1,15 @@
 ---- MODULE ProcessorProps ----
 (* C33 stated once, over parameters.  Processor.tla instantiates it with model state,          *)
 (* Obs_Processor.tla with values accumulated from the calls the real Run loop made on the      *)
-(* fake sink / checkpoint store.                                                               *)
+(* fake sink / checkpoint store.  All values are per partition (functions with one domain).    *)
 EXTENDS Integers
-CONSTANTS all,        \* set of offsets of all records of the partition's completed segments
-          sink,       \* set of offsets successfully written to the sink so far
-          ckpt,       \* the partition's persisted checkpoint (-1 = none)
-          cleanDone   \* TRUE iff some polling cycle has run to completion without any injected failure
+CONSTANTS all,        \* partition -> set of offsets of all records of the partition's completed segments
+          sink,       \* partition -> set of offsets successfully written to the sink so far
+          ckpt,       \* partition -> the partition's checkpoint (-1 = none)
+          cleanDone   \* partitions for which some polling cycle of their lease holder ran to completion without any injected failure
 
 \* a checkpoint never moves past a record that has not been written
-C33_CheckpointSafe == \A o \in all : o <= ckpt => o \in sink
+C33_CheckpointSafe == \A p \in DOMAIN all : \A o \in all[p] : o <= ckpt[p] => o \in sink[p]
 \* at least once: as soon as one polling cycle met no failure, every record (offset 0 included) has been written
-C33_CleanCycleDelivers == cleanDone => all \subseteq sink
+C33_CleanCycleDelivers == \A p \in cleanDone : all[p] \subseteq sink[p]
 ====
